@@ -225,6 +225,7 @@ int __wrap_pthread_mutex_lock(pthread_mutex_t *m)
     if (!g_track) return __real_pthread_mutex_lock(m);
     /* taking a lock is a scheduling point: what a thread read before asking for the lock may be stale by the time it gets it */
     slu_mt_verif_event(HXV_LOCK_ACQUIRE, -1, 0, 0, 0, m);
+    { extern void sched_maybe_long_stall(void); sched_maybe_long_stall(); }
     for (;;) {
         int r = pthread_mutex_trylock(m);
         if (r != EBUSY) return r;
